@@ -476,6 +476,20 @@ func runAdv(s *advScenario, replay *advReplay, capture *advReplay) (advObs, erro
 				return nil, true
 			case site == "ske" && (s.Ske == "otherrandoms" || s.Ske == "same_server_random" || s.Ske == "same_client_random"):
 				return replay.ske, true
+			case site == "ske" && (s.Ske == "trailing" || s.Ske == "extraint") && len(honest) > 4:
+				// honest = 2-byte length || DER signature
+				sig := append([]byte(nil), honest[2:]...)
+				if s.Ske == "trailing" {
+					sig = append(sig, 0)
+				} else if sig[0] == 0x30 && sig[1] < 0x7d && int(sig[1]) == len(sig)-2 {
+					sig = append(sig, 2, 1, 1) // INTEGER 1 inside the SEQUENCE
+					sig[1] += 3
+				} else {
+					return nil, false
+				}
+				return append([]byte{byte(len(sig) >> 8), byte(len(sig))}, sig...), true
+			case site == "cv" && s.Cv == "trailing":
+				return append(append([]byte(nil), honest...), 0), true
 			case site == "ske" && s.Ske == "badsig":
 				b := append([]byte(nil), honest...)
 				b[len(b)-3] ^= 4
